@@ -7,3 +7,5 @@ import DafRel.Props.C17
 #print axioms DafRel.Props.C17.conform_idempotent
 #print axioms DafRel.Props.C17.append_unary_to_select_sound
 #print axioms DafRel.Props.C17.sql_apply_sound
+#print axioms DafRel.Props.C17.sql_join_factory_sound
+#print axioms DafRel.Props.C17.factory_results_are_conformed
